@@ -841,6 +841,55 @@ func c31bCheck(c *kit.Case, in c31bInput) {
 			}
 		}
 	}
+	// each stored availability record is its own: extending one record (what forget / solicit do
+	// with append) must not change the record of any other preimage integrated by the same block
+	type recRef struct {
+		svc types.ServiceID
+		key types.LookupMetaMapkey
+	}
+	snap := map[recRef][]types.TimeSlot{}
+	for id, acc := range post {
+		for k, v := range acc.LookupDict {
+			snap[recRef{id, k}] = append([]types.TimeSlot(nil), v...)
+		}
+	}
+	for id, acc := range post {
+		for k, v := range acc.LookupDict {
+			ext := append(v, types.TimeSlot(in.Tau)+777) // the extended record is NOT stored back
+			if len(ext) > 1 {
+				ext[len(ext)-1] = types.TimeSlot(in.Tau) + 778
+			}
+			_ = id
+			_ = k
+		}
+	}
+	for id, acc := range post {
+		for k, v := range acc.LookupDict {
+			w := snap[recRef{id, k}]
+			full, fullW := v[:cap(v)], w
+			same := len(v) == len(w)
+			for i := 0; same && i < len(w); i++ {
+				same = v[i] == w[i]
+			}
+			if !same {
+				c.Failf("availability record of service %d (length %d) changed from %v to %v when another record was extended", id, k.Length, fullW, full[:len(v)])
+			}
+		}
+	}
+	// (records with spare capacity shared between entries show up as a changed tail of a sibling)
+	seenTail := map[*types.TimeSlot]recRef{}
+	for id, acc := range post {
+		for k, v := range acc.LookupDict {
+			if cap(v) == 0 {
+				continue
+			}
+			p0 := &v[:1][0]
+			if other, dup := seenTail[p0]; dup {
+				c.Failf("availability records of service %d (length %d) and service %d (length %d) share their memory: extending one by append rewrites the other", id, k.Length, other.svc, other.key.Length)
+			}
+			seenTail[p0] = recRef{id, k}
+		}
+	}
 }
 
 func TestVerif_C31(t *testing.T) {
